@@ -312,6 +312,10 @@ class ConditionLike:
         }
         CALLABLE_LOOKUP = {
             "in": "in_",
+            # spec keys are lower-cased, but these callable names contain an upper-case letter:
+            "keys_contain_n_of": "keys_contain_N_of",
+            "keys_contain_at_least_n_of": "keys_contain_at_least_N_of",
+            "keys_contain_at_most_n_of": "keys_contain_at_most_N_of",
         }
         PRE_PROC_LOOKUP = {
             "type": "dtype",
